@@ -1,6 +1,7 @@
 package main
 
 import (
+	"context"
 	"fmt"
 	"regexp"
 	"sort"
@@ -238,6 +239,13 @@ func genQuery(r Rng, p *pools, allowInvalid bool) *bs.Query {
 	case 0:
 	case 1:
 		q.Bloom = &bs.BloomQuery{}
+	case 2, 3, 4:
+		if len(p.leaves) > 0 {
+			e := p.leafExpr(r)
+			q.Bloom = &bs.BloomQuery{Expression: &e}
+			break
+		}
+		fallthrough
 	default:
 		e := genBloomExpr(r, p, 3)
 		q.Bloom = &bs.BloomQuery{Expression: &e}
@@ -339,12 +347,62 @@ func genPrefilterFor(r Rng, h *History) *bs.QueryPrefilter {
 	return &bs.QueryPrefilter{Expression: &e}
 }
 
+// rowDirectedPrefilter is the sharpest probe of block metadata: a single condition built from one stored
+// row's own indexed value (so that row satisfies it), touching the boundary of its int64 cover.
+func rowDirectedPrefilter(r Rng, h *History) *bs.QueryPrefilter {
+	if len(h.Order) == 0 || len(h.Keys) == 0 {
+		return nil
+	}
+	for try := 0; try < 10; try++ {
+		sr := h.Rows[h.Order[r.IntN(len(h.Order))]]
+		key := pick(r, h.Keys)
+		nc, ok := sr.Vals[key]
+		if !ok {
+			continue
+		}
+		lo, hi, ok := bs.ConvertToMinMaxInt64(nc.Go)
+		if !ok {
+			continue
+		}
+		var cond bs.NumericCondition
+		switch r.Pick(5) {
+		case 0:
+			cond = bs.NumericGreaterThanEqual(hi)
+		case 1:
+			cond = bs.NumericLessThanEqual(lo)
+		case 2:
+			cond = bs.NumericBetween(lo, hi)
+		case 3:
+			if lo > -1<<62 {
+				cond = bs.NumericGreaterThan(lo - 1)
+			} else {
+				cond = bs.NumericGreaterThanEqual(lo)
+			}
+		default:
+			if hi < 1<<62 {
+				cond = bs.NumericLessThan(hi + 1)
+			} else {
+				cond = bs.NumericLessThanEqual(hi)
+			}
+		}
+		e := bs.MinMax(key, cond)
+		return &bs.QueryPrefilter{Expression: &e}
+	}
+	return nil
+}
+
 func e2eChecks(c *ctx, which string) {
 	r := NewRng(c.seed, 103)
-	hist := 14 * c.scale
+	hist := 40 * c.scale
 	for hi := 0; hi < hist; hi++ {
 		h := NewHistory(r)
 		h.Run(r, 6+r.IntN(10), c.r)
+		if r.Chance(0.5) {
+			if _, err := h.Env.Eng.Merge(context.Background()); err != nil {
+				c.r.Add(Finding{Kind: "disagreement", Check: "history-merge", Detail: "healthy merge failed: " + err.Error(), Replay: h.Ops})
+			}
+			h.Ops = append(h.Ops, "merge (final)")
+		}
 		layout, err := h.Layout()
 		if err != nil {
 			c.r.Add(Finding{Kind: "violation", Check: "e2e-layout", Detail: "a file written by the engine does not read back through the public helpers: " + err.Error(), Replay: map[string]any{"ops": h.Ops}})
@@ -387,6 +445,16 @@ func e2eChecks(c *ctx, which string) {
 		for qi := 0; qi < nq; qi++ {
 			q := genQuery(r, p, false)
 			q.Prefilter = genPrefilterFor(r, h)
+			if qi%3 == 1 {
+				// prefilter-focused: every row matches, so the answer is decided by block metadata alone
+				q.Bloom, q.Regex = nil, nil
+				for k := 0; k < 8 && q.Prefilter == nil; k++ {
+					q.Prefilter = genPrefilterFor(r, h)
+				}
+				if pf := rowDirectedPrefilter(r, h); pf != nil && r.Chance(0.6) {
+					q.Prefilter = pf
+				}
+			}
 			out := h.Env.Query(q)
 			got := idsOf(out.Rows)
 			if out.Err != nil {
